@@ -49,3 +49,18 @@ Theorem C09_built_flat_globs_always_sound : forall orbit e sp ts r p z,
   Lang orbit (TCat sp ts) p -> Lang orbit (TCat sp ts) (p ++ SEP :: z).
 Proof. exact built_flat_always_sound. Qed.
 Print Assumptions C09_built_flat_globs_always_sound.
+
+From WaxProofs Require Import DepthAltFacts ExhaustAltFacts.
+
+(* the verdict itself for every glob that builds and has no repetition, however the alternations nest (`{src,tests}/**`,
+   `**/{a,b}/*`, `x/{a/**,b/**/*}`): every expansion of the tree is covered by a member of the term the exhaustiveness fold
+   computes (the taken suffix of every concatenation, conjoined in reverse; the disjunction over branches), a member without upper
+   bound means the expansion ends with a tree wildcard followed by separators and zero-or-more wildcards only; with the rule
+   checker's guarantees over expansions (C06: no adjacent boundaries, no adjacent zero-or-more wildcards) that tail is `*`, `*/*`,
+   ..., which absorbs any further component.  What remains excluded is the known class trailing_boundary (may_end_sep); with
+   repetitions the verdict was unsound twice (46d7bc7, 8aceb3d: repaired) and optional repetitions remain a known class *)
+Theorem C09_built_globs_without_repetitions_always_sound : forall orbit e t r p z,
+  build e = BuildOk t r -> rep_free t = true -> is_exhaustive t = Ok Always -> may_end_sep t = false -> nosep z = true ->
+  Lang orbit t p -> Lang orbit t (p ++ SEP :: z).
+Proof. exact built_rep_free_always_sound. Qed.
+Print Assumptions C09_built_globs_without_repetitions_always_sound.
